@@ -56,3 +56,14 @@ pub mod substream {
 
 /// Scripted transport + façade over the real transport manager.
 pub mod scripted;
+
+/// The TCP transport's own multiaddress parser (what `TcpTransport::dial`/`open` apply to an address).
+pub fn tcp_multiaddr_to_socket_address(
+    address: &multiaddr::Multiaddr,
+) -> Result<(String, Option<crate::PeerId>), String> {
+    use crate::transport::common::listener::{GetSocketAddr, TcpAddress};
+
+    TcpAddress::multiaddr_to_socket_address(address)
+        .map(|(address, peer)| (format!("{address:?}"), peer))
+        .map_err(|error| format!("{error:?}"))
+}
